@@ -91,6 +91,22 @@ def deriv(e, x):
     return (-f(2) + 8 * f(1) - 8 * f(-1) + f(-2)) / 12
 
 
+PASSES = [0]
+
+
+def bell_feasible(ex, jm, am, vm, p0, p1, v0, v1, fwd):
+    """The standard double-S feasibility condition (Biagiotti & Melchiorri, 3.4): the displacement is large enough to
+    change the velocity from v0 to v1 under the jerk / acceleration limits."""
+    sg = 1 if fwd else -1
+    h = mul(sg, sub(p1, p0))
+    a, b = mul(sg, v0), mul(sg, v1)
+    dv = rabs(sub(b, a))
+    s = ex.fresh_real("tjstar")
+    ex.assume(conj([rle(ZERO, s), req(mul(mul(s, s), jm), dv)]))
+    lim = R(am) / R(jm)
+    ex.assume(z3.If(R(s) < lim, R(h) > R(s) * (R(a) + R(b)), R(h) > (R(a) + R(b)) * (lim + R(dv) / R(am)) / 2) if ex.concrete is None else True)
+
+
 def bell_harness(clause, fwd, seg):
     def h(ex):
         tr = Tr(ex, "")
@@ -100,6 +116,8 @@ def bell_harness(clause, fwd, seg):
         jm, am, vm, p0, p1, v0, v1 = [ex.fresh_real(n) for n in ("jm", "am", "vm", "p0", "p1", "v0", "v1")]
         ex.assume(conj([rlt(ZERO, jm), rlt(ZERO, am), rlt(ZERO, vm), rlt(p0, p1) if fwd else rlt(p1, p0)]))
         ex.assume(conj([rle(rabs(v0), vm), rle(rabs(v1), vm)]))
+        if PASSES[0]:
+            bell_feasible(ex, jm, am, vm, p0, p1, v0, v1, fwd)
         t = tr.call("a_trajbell_gen", ctx, jm, am, vm, p0, p1, v0, v1, ret="f64")
         if not ex.branch(rlt(ZERO, t)):
             return
@@ -107,7 +125,7 @@ def bell_harness(clause, fwd, seg):
         T, tv, ta, td, taj, tdj = f["t"], f["tv"], f["ta"], f["td"], f["taj"], f["tdj"]
         call = lambda fn, x: tr.call("a_trajbell_" + fn, ctx, x, ret="f64")
         if clause == "phases":
-            ex.check(conj([rle(ZERO, ta), rle(ZERO, td), rlt(ZERO, tv), rle(ZERO, taj), rle(ZERO, tdj)]), "bell:phase-durations-negative")
+            ex.check(conj([rle(ZERO, ta), rle(ZERO, td), rle(ZERO, tv), rle(ZERO, taj), rle(ZERO, tdj)]), "bell:phase-durations-negative")
             ex.check(req(T, add(add(ta, tv), td)), "bell:phases-do-not-add-up-to-the-total")
             ex.check(conj([rle(mul(2, taj), ta), rle(mul(2, tdj), td)]), "bell:jerk-phases-longer-than-the-acceleration-phase")
             ex.check(req(call("pos", ZERO), p0), "bell:pos(0)-is-not-p0")
@@ -171,13 +189,16 @@ def main():
     T = tier()
     srcs = ["trajtrap.c", "trajbell.c", "math.c", "a.c"]
     mods = build.load_modules(cfg, srcs)
-    cut = {("a_trajbell_gen", h) for h in loop_headers(mods, "a_trajbell_gen")}
+    # the body of the acceleration-reduction loop is executed ONCE (its first pass already contains the exits to the
+    # no-cruise and the acceleration-only / deceleration-only plans); a path is abandoned when it comes back to the header
+    PASSES[0] = 0 if T == "quick" else 1
+    cut = {("a_trajbell_gen", h): PASSES[0] for h in loop_headers(mods, "a_trajbell_gen")}
     res.functions.update(["a_trajtrap_gen", "a_trajtrap_pos", "a_trajtrap_vel", "a_trajtrap_acc",
                           "a_trajbell_gen (cruise branch: constant-velocity phase present)", "a_trajbell_pos", "a_trajbell_vel", "a_trajbell_acc", "a_trajbell_jer"])
     res.bounds = {"trapezoid": "all real limits/positions/velocities with vm != 0, p1 != p0, acceleration signs matching the direction of travel, |v0|,|v1| <= |vm|; every planning branch (forked); a symbolic query time inside each phase",
-                  "bell": "jm, am, vm > 0, |v0|,|v1| <= vm, plans with a constant-velocity phase (tv > 0); symbolic query time inside each of the seven segments",
-                  "cut": "paths entering the loop of a_trajbell_gen are abandoned: blocks %s" % sorted(h for _, h in cut)}
-    res.outside = ["the iterative acceleration-reduction branch of a_trajbell_gen (about 52 halvings with three exits each: path explosion, loop-carried real state) and the single-phase plans reached only through it",
+                  "bell": "jm, am, vm > 0, |v0|,|v1| <= vm; quick: plans with a constant-velocity phase; thorough: additionally the plans produced by the FIRST pass of the acceleration-reduction loop (no cruise phase with the acceleration limit reached; acceleration-only; deceleration-only) under the standard double-S feasibility condition; symbolic query time inside each of the seven segments",
+                  "cut": "the loop of a_trajbell_gen is executed once; paths returning to its header are abandoned: blocks %s" % sorted(h for _, h in cut)}
+    res.outside = ["second and later passes of the acceleration-reduction loop of a_trajbell_gen (about 52 halvings with three exits each: path explosion, loop-carried real state)",
                    "rounding: continuity / end-state clauses are decided as exact equalities of the real formulas"]
     res.assumptions = ["sqrt(x) = the y >= 0 with y*y = x", "obligations on which z3 answers 'unknown' within the time limit are listed under dropped_from_claim (bell profile only), never counted as held"]
     inst_t = [("trap", "phases", d, None) for d in (True, False)] + [("trap", "segments", d, k) for d in (True, False) for k in range(3)]
@@ -185,7 +206,7 @@ def main():
     e2.run_e2(res, cfg, srcs, inst_t, builder, group="trap", validate_every=1, tol=1e-6, exec_attrs={"force_solver": True},
               exec_opts={"solver": "nra", "timeout_ms": 60000 if T == "quick" else 600000}, time_budget=500 if T == "quick" else 4000)
     e2.run_e2(res, cfg, srcs, inst_b, builder, group="bell", validate_every=1, tol=1e-6, exec_attrs={"force_solver": True, "cut": cut},
-              exec_opts={"solver": "nra", "timeout_ms": 60000 if T == "quick" else 600000}, time_budget=500 if T == "quick" else 4000, droppable=True)
+              exec_opts={"solver": "nra", "timeout_ms": 60000 if T == "quick" else 600000}, time_budget=500 if T == "quick" else 5000, droppable=True)
     e2.finish_coverage(res, must_cover=["a_trajtrap_gen", "a_trajtrap_pos", "a_trajbell_gen", "a_trajbell_pos", "a_trajbell_jer"], report_funcs=None)
     return res.finish()
 
